@@ -94,6 +94,14 @@ def r2_helper(prog, rep: Report, fam: Family):
         if helper not in seen:
             seen.add(helper)
             rep.fn(helper)
+            foreign = fam.reopen_foreign_compare.get(c.qual)
+            if foreign is not None:
+                cmp_, other = foreign
+                rep.viol("C18.R2", helper, "helper", f"the re-open test `{src(cmp_)}` compares the recorded owner with `{src(other)}`, "
+                         "not with os.getpid(): only a process whose own pid differs from the recorded one is a different process",
+                         scenario="a grandchild (or any process the test does not single out) keeps the inherited handle and shares "
+                                  "the file offset with the opener", line=cmp_.lineno)
+                continue
             _check_helper(prog, rep, helper, pid, c)
         for name, want_open in (("open", True), ("close", False)):
             f = prog.resolve(c, name)
